@@ -43,42 +43,6 @@ theorem seq_cursor (n k : Nat) : cursorAfter n k 0 = if n ≤ 1 then 0 else min 
 /-- when.go:162/194: `Return(v).AndReturn(v₂)…` and `Returns(v, v₂, …)` are the same configuration -/
 theorem return_andReturn_eq_returns (w : When) (v : Nat) (vs : List Nat) : vs.foldl andRet (ret w v) = rets w (v :: vs) := rfl
 
-theorem addResult_self (w : When) (i : Nat) (m : Matcher) (v : Nat) (h : w.ms[i]? = some m) :
-    (addResult w i v).ms[i]? = some { m with results := m.results ++ [v] } ∧
-    (∀ j, j ≠ i → (addResult w i v).ms[j]? = w.ms[j]?) ∧ (addResult w i v).ms.length = w.ms.length ∧
-    (addResult w i v).mlist = w.mlist ∧ (addResult w i v).dflt = w.dflt ∧ (addResult w i v).curMatch = w.curMatch := by
-  have e : addResult w i v = { w with ms := w.ms.set i { m with results := m.results ++ [v] } } := by
-    simp only [addResult, h]
-  rw [e]
-  exact ⟨List.getElem?_set_self (lt_of_getElem? h), fun j hj => List.getElem?_set_ne (Ne.symm hj), List.length_set, rfl, rfl, rfl⟩
-
-/-- the stub `AndReturn` extends: the current condition, or the default when there is none (when.go:162-168) -/
-def target (w : When) : Option Nat :=
-  match w.curMatch with
-  | some i => some i
-  | none => w.dflt
-
-/-- `AndReturn` (and the 2nd… values of `Returns`) append, in order, to the target stub and touch nothing else -/
-theorem andRets_target (vs : List Nat) : ∀ (w : When) (i : Nat) (m : Matcher), target w = some i → w.ms[i]? = some m →
-    (vs.foldl andRet w).ms[i]? = some { m with results := m.results ++ vs } ∧
-    (∀ j, j ≠ i → (vs.foldl andRet w).ms[j]? = w.ms[j]?) ∧ (vs.foldl andRet w).ms.length = w.ms.length ∧
-    (vs.foldl andRet w).mlist = w.mlist ∧ (vs.foldl andRet w).dflt = w.dflt ∧ (vs.foldl andRet w).curMatch = w.curMatch := by
-  induction vs with
-  | nil => intro w i m _ hm; exact ⟨by simp only [List.foldl_nil, List.append_nil]; exact hm, fun _ _ => rfl, rfl, rfl, rfl, rfl⟩
-  | cons v vs ih =>
-    intro w i m hc hm
-    obtain ⟨a1, a2, a3, a4, a5, a6⟩ := addResult_self w i m v hm
-    have hstep : andRet w v = addResult w i v := by
-      unfold target at hc
-      cases hcm : w.curMatch with
-      | some i' => simp only [hcm] at hc; cases hc; simp only [andRet, hcm]
-      | none => simp only [hcm] at hc; simp only [andRet, hcm, ret, hc]
-    have ht : target (addResult w i v) = some i := by unfold target at hc ⊢; rw [a6, a5]; exact hc
-    obtain ⟨b1, b2, b3, b4, b5, b6⟩ := ih (addResult w i v) i _ ht a1
-    simp only [List.foldl_cons, hstep]
-    refine ⟨by rw [b1]; simp only [List.append_assoc, List.singleton_append], fun j hj => by rw [b2 j hj, a2 j hj],
-      by rw [b3, a3], by rw [b4, a4], by rw [b5, a5], by rw [b6, a6]⟩
-
 /-- when.go:120/140 + :194: `When(c).Returns(v, vs…)` (equally `.Return(v).AndReturn(…)…`) on **any** `When` creates
     one new stub whose sequence is exactly `v :: vs` with the cursor at the start, puts it last in the match order,
     and leaves every existing stub (results *and* cursor) and the default untouched. -/
@@ -266,6 +230,11 @@ theorem conc_rt_monotone (n : Nat) (hn : 1 ≤ n) (p q r : List Ev) (a va b vb :
     omega
   · omega
 
+/-- the hypotheses are met by real interleavings: thread 0 returns position 0, then thread 1 is invoked while thread 2 is still
+    in flight -/
+example : (run 3 init ([.inv 2, .inv 0, .step 0, .step 0] ++ Ev.resp 0 0 :: ([.step 2] ++ Ev.inv 1 :: [.step 1, .step 1, .resp 1 1, .step 2,
+    .resp 2 1]))).isSome = true := by decide
+
 /-- **sticky last**, the version that is true of the code: once a call has *returned* the last element, every call
     that *starts* afterwards returns the last element -/
 theorem conc_sticky (n : Nat) (hn : 1 ≤ n) (p q r : List Ev) (a b vb : Nat) (s : St)
@@ -273,6 +242,9 @@ theorem conc_sticky (n : Nat) (hn : 1 ≤ n) (p q r : List Ev) (a b vb : Nat) (s
   have h1 := conc_rt_monotone n hn p q r a (n - 1) b vb s h hb
   have h2 : vb < n := conc_in_range n hn _ s h b vb (by simp only [List.mem_append, List.mem_cons]; right; right; right; right; exact hb)
   omega
+
+example : (run 2 init ([.inv 0, .step 0, .step 0, .resp 0 0, .inv 0, .step 0, .step 0] ++ Ev.resp 0 (2 - 1) :: ([.inv 5, .step 5] ++ Ev.inv 1 ::
+    [.step 1, .step 1, .resp 1 1, .step 5, .resp 5 1]))).isSome = true := by decide
 
 /-- **per caller, positions never go backwards** (and move on until the last element): consecutive results of one
     thread satisfy `v₂ ≥ min (v₁+1) (n-1) ≥ v₁` -/
@@ -331,13 +303,6 @@ def HistOK (n : Nat) (h : List Ev) : Prop :=
   (∀ l1 l2 l3 a va b vb, h = l1 ++ Ev.resp a va :: (l2 ++ Ev.inv b :: l3) → Ev.resp b vb ∈ l3 →
       va ≤ vb ∧ min (va + 1) (n - 1) ≤ vb ∧ (va = n - 1 → vb = n - 1)) ∧
   (∀ l1 l2 t v1 v2, h = l1 ++ Ev.resp t v1 :: l2 → Ev.resp t v2 ∈ l2 → v1 ≤ v2)
-
-theorem obs_split {w : List Ev} {l1 l2 : List Ev} {e : Ev} (h : obs w = l1 ++ e :: l2) :
-    ∃ w1 w2, w = w1 ++ e :: w2 ∧ obs w2 = l2 := by
-  unfold obs at h
-  obtain ⟨u1, u2, rfl, -, hu2⟩ := List.filter_eq_append_iff.1 h
-  obtain ⟨x1, x2, rfl, -, -, hx2⟩ := List.filter_eq_cons_iff.1 hu2
-  exact ⟨u1 ++ x1, x2, by simp only [List.append_assoc], hx2⟩
 
 /-- **soundness of trace validation**: a history of the real implementation that the model admits (some insertion of
     internal steps makes it a run) satisfies the concurrent clause of the property -/
